@@ -131,6 +131,16 @@ def gen_configs(rs, tier):
                 if D >= 10 and not all(dw):   # keep C^4 channel blow-up small on the big sides
                     g["batch"] = min(g["batch"], 2)
                 out.append(g)
+    # wide layers: ONE dense product layer fed by 5-6 channels (5^4 = 625, 6^4 = 1296 output channels), so that the sum layer above
+    # it mixes several hundred channels (round 8: a block-wise reduction that normalises the weights per block only shows beyond 256
+    # input channels); every other product layer is depthwise, which keeps the network small
+    for D, dw, wide_at in ((2, [False, True], "batch"), (4, [False, True], "batch"), (4, [True, False, True], "sumc")):
+        k = int(rs.randint(5, 7))
+        k = 5 if wide_at == "sumc" else k
+        g = dict(C=2 if D == 2 else int(rs.randint(1, 3)),   # (two image channels on side 2: the 37^4-point grid integral is for the small networks)
+                 D=D, classes=int(rs.randint(1, 4)), batch=k if wide_at == "batch" else int(rs.randint(1, 3)),
+                 sumc=k if wide_at == "sumc" else int(rs.randint(1, 3)), n=(1 if D == 4 else int(rs.randint(0, 2))) if wide_at == "batch" else 0, dw=dw, wide=True)
+        out.append(g)
     return out
 
 
@@ -445,6 +455,15 @@ def main(tier, seed, replay=None):
             if g["D"] % (2 ** max(g["n"], 0)):
                 dist["indivisible"] += 1
             continue
+        if g.get("wide"):
+            # wide configurations: constructor geometry against the model (above) and the direct oracles; the per-value comparisons
+            # inside Coq stay on the small configurations (the un-memoised model evaluation is exponential in the channel count)
+            dist["wide_sum_inputs"] = dist.get("wide_sum_inputs", []) + [max(t[1] for t in lt if t[0] == 1)]
+            f = direct_oracle(g, seed + gi, np.random.RandomState((seed + 7919 * gi) % (2 ** 31)))
+            rep.count(["oracle", g])
+            if f:
+                oracle_fail.append((g, f))
+            continue
         dist["sides"][g["D"]] = dist["sides"].get(g["D"], 0) + 1
         dist["pooling"][g["n"]] = dist["pooling"].get(g["n"], 0) + 1
         for t in lt:
@@ -542,6 +561,8 @@ def main(tier, seed, replay=None):
                        "sum channels 1-2, depthwise flag vector of random length 1..depth+1; first draw all-dense); per configuration: constructor "
                        "geometry vs model, sparse kernels, %d random one-hot sub-circuits x every class (integer gradient = leaf usage vs model), "
                        "direct oracles with random weights (gradient mass, all-NaN, mpe, 2x2 grid integral), exact forward for sides <= 4; plus "
+                       "three wide configurations (one dense product layer fed by 5-6 channels, 625-1296 inputs to the sum layer above it): "
+                       "constructor geometry vs model and the direct oracles only; "
                        "constructor-only cases (rejected arguments, sides outside the divisibility premise, side 1). one evaluation = one case "
                        "compared inside Coq or one oracle run; non-trivial = configuration accepted by the constructor; distinct by content hash"
                        % (8 if tier == "quick" else 12, 2 if tier == "quick" else 5, n_use))
